@@ -27,6 +27,11 @@ def inject(scratch_repo, modules, known_ids):
         for h in harness_names(m):
             modpath = "" if m == "lib" else m.replace("__", "::") + "::"
             table.append((h, "crate::%sverif_h::%s" % (modpath, h)))
+    # data files used by harnesses through include_str!
+    for fn in os.listdir(os.path.join(C.VERIF, "harness")):
+        if fn.endswith(".txt"):
+            import shutil
+            shutil.copy(os.path.join(C.VERIF, "harness", fn), os.path.join(src, fn))
     rt = open(os.path.join(C.VERIF, "harness", "verif_rt.rs")).read()
     rt += "\nstatic VRT_KNOWN: &[&str] = &[%s];\n" % ", ".join('"%s"' % k for k in known_ids)
     rt += "pub(crate) fn vrt_dispatch(name: &str) -> bool {\n    match name {\n"
